@@ -226,7 +226,7 @@ def _succs(fn, bi):
     if k == "call":
         return [t[5]] if t[5] is not None else []
     if k == "assert":
-        return [t[7]]
+        return [t[6]]
     if k == "other":
         return list(t[3])
     return []
